@@ -4,12 +4,15 @@ import (
 	"fmt"
 	"math/rand"
 	"reflect"
+	"sort"
+	"strings"
 
 	"vh/ref/per"
 )
 
 type site struct {
 	desc  string
+	kind  string // the description without its numbers: sites are drawn kind first, so rare kinds are not crowded out
 	apply func()
 }
 
@@ -21,6 +24,18 @@ func Perturb(root reflect.Value, top per.Params, r *rand.Rand) string {
 	collect(root, top, "$", r, &sites)
 	if len(sites) == 0 {
 		return ""
+	}
+	if r.Intn(3) != 0 { // two draws in three: pick the KIND of violation uniformly first, then a site of that kind
+		byKind := map[string][]site{}
+		var kinds []string
+		for _, s := range sites {
+			if _, ok := byKind[s.kind]; !ok {
+				kinds = append(kinds, s.kind)
+			}
+			byKind[s.kind] = append(byKind[s.kind], s)
+		}
+		sort.Strings(kinds)
+		sites = byKind[kinds[r.Intn(len(kinds))]]
 	}
 	s := sites[r.Intn(len(sites))]
 	s.apply()
@@ -35,7 +50,14 @@ func collect(v reflect.Value, p per.Params, path string, r *rand.Rand, out *[]si
 		v = v.Elem()
 	}
 	t := v.Type()
-	add := func(desc string, f func()) { *out = append(*out, site{path + ": " + desc, f}) }
+	add := func(desc string, f func()) {
+		*out = append(*out, site{path + ": " + desc, strings.Map(func(c rune) rune {
+			if c >= '0' && c <= '9' {
+				return -1
+			}
+			return c
+		}, desc), f})
+	}
 	switch {
 	case isAper(t, "BitString"):
 		if p.SizeUB != nil && !p.SizeExt {
@@ -155,7 +177,7 @@ func collect(v reflect.Value, p per.Params, path string, r *rand.Rand, out *[]si
 							ap, _ := per.ParseTag(vt.Field(present).Tag.Get("aper"))
 							cur = bound(ap.RefFieldValue, 0)
 						}
-						*out = append(*out, site{name + ": open type whose identifier does not match the value", func() {
+						*out = append(*out, site{name + ": open type whose identifier does not match the value", "open type whose identifier does not match the value", func() {
 							x := cur + 1 + int64(r.Intn(5))
 							if x > 255 && t.Field(j).Type.Name() == "ProcedureCode" {
 								x = cur - 1
@@ -164,7 +186,7 @@ func collect(v reflect.Value, p per.Params, path string, r *rand.Rand, out *[]si
 						}})
 					}
 				}
-				*out = append(*out, site{name + ": open type with Present=0", func() { val.Field(0).SetInt(0) }})
+				*out = append(*out, site{name + ": open type with Present=0", "open type with Present=", func() { val.Field(0).SetInt(0) }})
 				if present >= 1 && present < vt.NumField() {
 					ap, _ := per.ParseTag(vt.Field(present).Tag.Get("aper"))
 					ap.RefFieldValue = nil
@@ -174,7 +196,7 @@ func collect(v reflect.Value, p per.Params, path string, r *rand.Rand, out *[]si
 			}
 			if !fp.Optional && f.Kind() == reflect.Ptr {
 				ff := f
-				*out = append(*out, site{name + ": mandatory component set to nil", func() { ff.Set(reflect.Zero(ff.Type())) }})
+				*out = append(*out, site{name + ": mandatory component set to nil", "mandatory component set to nil", func() { ff.Set(reflect.Zero(ff.Type())) }})
 			}
 			collect(f, fp, name, r, out)
 		}
